@@ -147,6 +147,21 @@ Definition cert_ok (S : structure) : bool :=
   && forallb (fun m => Qeq_bool (qpcolsum (s_pp S) m) 1 && Qeq_bool (qpcolsum (s_ps S) m) 1)
              (seq 0 (s_nm S)).
 
+(* Non-matching mortar / fracture grids: the integrated projections have entries such as
+   1/3 that are not binary fractions, so their float column sums are 1 only up to rounding.
+   The supports are checked exactly, the column sums within 1e-12. *)
+Definition cert_support (S : structure) : bool :=
+  forallb (fun t => (i_cell t <? s_nc S)%nat && (i_face t <? s_nf S)%nat) (s_div S)
+  && forallb (face_ok (s_div S)) (seq 0 (s_nf S))
+  && forallb (fun t => (w_row t <? s_nf S)%nat && is_boundary (s_div S) (w_row t)
+                       && (w_mortar t <? s_nm S)%nat) (s_pp S)
+  && forallb (fun t => (w_row t <? s_nc S)%nat && (w_mortar t <? s_nm S)%nat) (s_ps S).
+Definition near_one (x : Q) : bool := Qle_bool (Qabs (x - 1)) (1 # 1000000000000).
+Definition cert_ok_tol (S : structure) : bool :=
+  cert_support S
+  && forallb (fun m => near_one (qpcolsum (s_pp S) m) && near_one (qpcolsum (s_ps S) m))
+             (seq 0 (s_nm S)).
+
 (* ------------------------------------------------------------------------------------ *)
 (* Comparison with what the real operators evaluate to at one state. *)
 Record evaluation := {
@@ -205,8 +220,10 @@ Definition agree_eval (S : structure) (E : evaluation) : bool :=
      when the two interface fluxes differ (zero when they are the same) *)
   && close sc (qsum (e_res E)) (qsum (e_acc E) + qsum (e_lamf E) - qsum (e_lam E)).
 
-Definition agree (S : structure) (Es : list evaluation) : bool :=
-  cert_ok S && forallb (agree_eval S) Es.
+(* exact = the grids match (all projection entries are binary fractions): exact certificate;
+   otherwise the certificate with column sums within 1e-12 *)
+Definition agree (exact : bool) (S : structure) (Es : list evaluation) : bool :=
+  (if exact then cert_ok S else cert_ok_tol S) && forallb (agree_eval S) Es.
 
 (* Constructors used by the generated case files: indices are written as binary integers
    (unary nat literals make the case files slow to read). *)
